@@ -109,6 +109,7 @@ type c18Step struct {
 }
 
 type c18Result struct {
+	ReservedSet []int `json:"reserved_set,omitempty"` // mode "__reserved__": every 8-bit index with IsReserved()
 	Now0  int64     `json:"now0"`
 	Steps []c18Step `json:"steps"`
 	Panic string    `json:"panic,omitempty"`
@@ -456,6 +457,15 @@ func TestVerifC18(t *testing.T) {
 			t.Fatalf("bad case: %v", err)
 		}
 		var res c18Result
+		if cs.Mode == "__reserved__" {
+			// exhaustive: the real predicate on every value of the uint8 type
+			for i := 0; i < 256; i++ {
+				if consts.OutboundIndex(i).IsReserved() {
+					res.ReservedSet = append(res.ReservedSet, i)
+				}
+			}
+			return res
+		}
 		synctest.Test(t, func(t *testing.T) {
 			defer func() {
 				if r := recover(); r != nil {
